@@ -16,8 +16,11 @@ use crate::{
         Gf32Bit, Gf40Bit, MultiplyAccumulate, MultiplyAccumulator, PrimeField, Serializable,
         U128Conversions, batch_invert,
     },
-    protocol::prss::FromRandom,
-    secret_sharing::SharedValue,
+    protocol::{context::dzkp_field::DZKPBaseField, prss::FromRandom},
+    secret_sharing::{
+        SharedValue,
+        replicated::{ReplicatedSecretSharing, semi_honest::AdditiveShare},
+    },
 };
 
 fn raw<F: PrimeField + Serializable>(v: u128) -> F {
@@ -374,9 +377,45 @@ fn exec_bool(op: &str, args: &[&str]) -> String {
     }
 }
 
+// ------------------------------------------------------------------ replicated shares, DZKP constants
+// c08.share3 <Field> add|sub s0 s1 s2 t0 t1 t2 | neg s0 s1 s2 | mulconst s0 s1 s2 c
+//   helper i holds AdditiveShare(s_i, s_{i+1}); response: l0 r0 l1 r1 l2 r2 after the local operation.
+fn exec_share3<F>(op: &str, args: &[&str]) -> String
+where
+    F: PrimeField + Serializable,
+{
+    let v: Vec<F> = args.iter().map(|s| raw::<F>(s.parse::<u128>().unwrap())).collect();
+    let helper = |s: &[F], i: usize| AdditiveShare::<F>::new(s[i], s[(i + 1) % 3]);
+    let mut out = vec![];
+    for i in 0..3 {
+        let r: AdditiveShare<F> = match op {
+            "add" => helper(&v[0..3], i) + helper(&v[3..6], i),
+            "sub" => helper(&v[0..3], i) - helper(&v[3..6], i),
+            "neg" => -helper(&v[0..3], i),
+            "mulconst" => helper(&v[0..3], i) * v[3],
+            _ => panic!("harness: unknown op {op}"),
+        };
+        out.push(r.left().as_u128().to_string());
+        out.push(r.right().as_u128().to_string());
+    }
+    out.join(" ")
+}
+
 pub fn exec(req: &str) -> String {
     let t: Vec<&str> = req.split(' ').collect();
     match t[0] {
+        "c08.share3" => match t[1] {
+            "Fp31" => exec_share3::<Fp31>(t[2], &t[3..]),
+            "Fp32BitPrime" => exec_share3::<Fp32BitPrime>(t[2], &t[3..]),
+            "Fp61BitPrime" => exec_share3::<Fp61BitPrime>(t[2], &t[3..]),
+            f => panic!("harness: unknown field {f}"),
+        },
+        "c08.const" => match t[1] {
+            "INVERSE_OF_TWO" => Fp61BitPrime::INVERSE_OF_TWO.as_u128().to_string(),
+            "MINUS_ONE_HALF" => Fp61BitPrime::MINUS_ONE_HALF.as_u128().to_string(),
+            "MINUS_TWO" => Fp61BitPrime::MINUS_TWO.as_u128().to_string(),
+            c => panic!("harness: unknown constant {c}"),
+        },
         "c08.bool" => exec_bool(t[1], &t[2..]),
         "c08.ba" => match t[1] {
             "BA3" => exec_ba_small!(BA3, t[2], &t[3..]),
@@ -967,6 +1006,39 @@ fn verif_c08_ba() {
                 ("BA112", 112, true), ("BA144", 144, false), ("BA256", 256, false),
             ] {
                 gen_ba(rng, thorough, &mut out, name, bits, small);
+            }
+            out
+        },
+        exec,
+    );
+}
+
+#[test]
+fn verif_c08_shares() {
+    run_suite(
+        "c08_shares",
+        |rng, thorough| {
+            let mut out = vec![];
+            for c in ["INVERSE_OF_TWO", "MINUS_ONE_HALF", "MINUS_TWO"] {
+                out.push(format!("c08.const {c}"));
+            }
+            for (f, p) in [
+                ("Fp31", u128::from(Fp31::PRIME)),
+                ("Fp32BitPrime", u128::from(Fp32BitPrime::PRIME)),
+                ("Fp61BitPrime", u128::from(Fp61BitPrime::PRIME)),
+            ] {
+                let corner = [0u128, 1, p - 1, p - 2, p / 2, p / 2 + 1];
+                let n = if thorough { 4_000 } else { 300 };
+                for k in 0..n {
+                    let mut e = |rng: &mut Rng| if k < 60 || rng.below(4) == 0 { *rng.pick(&corner) } else { rng.next_u128() % p };
+                    let v: Vec<u128> = (0..7).map(|_| e(rng)).collect();
+                    out.push(format!("c08.share3 {f} add {} {} {} {} {} {}", v[0], v[1], v[2], v[3], v[4], v[5]));
+                    out.push(format!("c08.share3 {f} sub {} {} {} {} {} {}", v[0], v[1], v[2], v[3], v[4], v[5]));
+                    out.push(format!("c08.share3 {f} neg {} {} {}", v[0], v[1], v[2]));
+                    out.push(format!("c08.share3 {f} mulconst {} {} {} {}", v[0], v[1], v[2], v[6]));
+                }
+                out.push(format!("c08.share3 {f} neg 0 0 0"));
+                out.push(format!("c08.share3 {f} sub 0 0 0 0 0 0"));
             }
             out
         },
